@@ -58,10 +58,16 @@ def r1(ctx):
     fn = ctx.fn("network::Network::predict_batch")
     ph = pat_binds(fn["params"][1])[0][1]
     b = strip(fn["body"])
-    while b.get("k") == "blk" and not b["b"]["stmts"]:
-        b = strip(b["b"]["tail"])
+    while b.get("k") == "blk" and b["b"].get("tail") is not None and all(s_.get("k") == "let" and not s_.get("els") for s_ in b["b"]["stmts"]):
+        b = strip(b["b"]["tail"])          # `let result = <chain>; result`: the lets are resolved below
     from ..hir import resolve, let_table
     b = resolve(b, let_table(fn["body"]))
+    if b is not None and b.get("k") == "local":
+        # `let predictions = <chain>; predictions` - a result named once and returned
+        uses_ = [x for x in walk(fn["body"]) if x.get("k") == "local" and x.get("hid") == b["hid"]]
+        lets_ = [x for x in walk(fn["body"]) if x.get("k") == "let" and x["pat"].get("k") == "bind" and x["pat"].get("hid") == b["hid"] and x.get("init") is not None]
+        if len(uses_) == 1 and len(lets_) == 1 and "Mut)" not in str(lets_[0]["pat"].get("mode")):
+            b = strip(lets_[0]["init"])
     names, base = chain_of(b)
     ok = names in OUTER_OK[:2] and e4.local_hid(base) == ph
     ctx.check("R12.1", "predict_batch-outer-chain", ok, "predict_batch-chain:" + ".".join(names), c.loc(fn), "inputs.%s" % ".".join(names),
